@@ -1309,6 +1309,13 @@ func (pc *PartitionContext) UpdateAllocation(alloc *objects.Allocation) (request
 			zap.String("appID", applicationID),
 			zap.String("allocationKey", allocationKey))
 
+		// the request might hold a reservation made while it was pending: it gets allocated now, drop the
+		// reservation so that the reserved node is not kept out of scheduling for an ask that is no longer outstanding
+		if reservedNodeID := app.NodeReservedForAsk(allocationKey); reservedNodeID != "" {
+			if reservedNode := pc.GetNode(reservedNodeID); reservedNode != nil {
+				pc.unReserve(app, reservedNode, existing)
+			}
+		}
 		existing.SetNodeID(nodeID)
 		existing.SetBindTime(alloc.GetBindTime())
 		if _, err := app.AllocateAsk(allocationKey); err != nil {
